@@ -49,6 +49,7 @@ var st struct {
 	recorded []draw
 	observes []string
 	bounds   map[string]int
+	harness  string
 }
 
 func next(kind string, w int) uint64 {
@@ -244,6 +245,9 @@ func RegexDiffWitness(re interface{ MatchString(string) bool }, grammar string) 
 	return string(b), differ
 }
 
+// Harness returns the name of the harness that is running natively (used by generated stub wrappers).
+func Harness() string { return st.harness }
+
 // Symbolic reports whether the harness runs under the symbolic engine with symbolic draws.
 func Symbolic() bool { return false }
 
@@ -315,6 +319,7 @@ func Main(t testingT, harnesses map[string]func()) {
 	if !ok {
 		t.Fatalf("vp: unknown harness %q", name)
 	}
+	st.harness = name
 	st.bounds = map[string]int{}
 	for _, kv := range strings.Split(os.Getenv("VP_BOUNDS"), ",") {
 		if p := strings.SplitN(kv, "=", 2); len(p) == 2 {
